@@ -2,8 +2,19 @@
 from .util import make_program, evaluate_outcome
 
 
-def string_literal(text, bytes, expected):
+def string_literal(text, bytes, expected, tail=None):
     src = "".join(chr(c) for c in text)
+    if tail:
+        # `<literal> + <second literal>`: the first literal must be its own token (value = first + b"y"/"y")
+        for runner in ("interp", "compiled"):
+            try:
+                prog = make_program(src + tail, runner)
+                kd, v = evaluate_outcome(lambda: prog.evaluate({}))
+            except Exception as ex:  # noqa: BLE001
+                return False, f"`{src + tail}` under {runner}: {type(ex).__name__}: {ex}"
+            got = list(v) if (bytes and kd == "value") else ([ord(c) for c in v] if kd == "value" else None)
+            if got != list(expected) + [ord("y")]:
+                return False, f"`{src + tail}` under {runner}: {kd} {v!r:.80}; expected the first literal's value followed by 'y'"
     for runner in ("interp", "compiled"):
         try:
             prog = make_program(src, runner)
